@@ -223,12 +223,12 @@ check('C10', 'render',
       'judged by a TLC trace acceptor whose memo is seeded from fresh interpreters',
       'All histories of 4 actions (NewConf with 2 contents / no_color, DropConf + gc, SetGlobal, Render through a slot or '
       'the global configuration, colour / no_color, whole / line by line) on the table kind and TLC simulations of 12 '
-      'actions over 6 object kinds (pretty-printed value, two tables sharing an enum field type, record formatter, '
-      'h-doc help, an object starting with an empty line).  Each event must equal the fresh-interpreter output for its '
+      'actions over 7 object kinds (pretty-printed value, two tables sharing an enum field type, record formatter, '
+      'h-doc help, an object starting with an empty line, the git history report).  Each event must equal the fresh-interpreter output for its '
       '(object, configuration content, no_color), line-by-line = whole, stripped colour output = no_color output, no '
       'ESC in no_color output.',
       'Trusted: TLC, harness/sgr.py; objects and configuration contents fixed in harness/c10_objs.py; colours compared '
-      'as painted cells. The git history report is not among the rendered objects yet.',
+      'as painted cells.',
       'DESIGN.md section 4, C10')
 
 check('C04', 'llparser',
@@ -271,7 +271,8 @@ check('C06', 'ghist',
       'make_reports_data runs on a mock repository and each branch report is accepted only if builds are the right '
       'commits, every reachable matching commit is listed once under an ancestry-minimal build of that branch, never '
       'under "not merged", "not merged" lists exactly the unreachable matching commits of lower branches, nothing '
-      'non-matching is listed, branches come in numeric-aware order.',
+      'non-matching is listed, branches come in numeric-aware order; the printed report is parsed back and must list '
+      'the same builds and commits as the data.',
       'Trusted: TLC, the mock repository. Known finding F-C06 (head of a branch inside a lower-sorted branch) is '
       'reported as KNOWN-FINDING only when the report shows exactly the known pattern.',
       'DESIGN.md section 4, C06')
